@@ -2464,7 +2464,7 @@ class Where(Statement):
         i = line.index(")")
         self.expr = self.item.apply_map(line[1:i].strip())
         line = line[i + 1 :].lstrip()
-        newitem = self.item.copy(line)
+        newitem = self.item.copy(line, apply_map=True)
         cls = Assignment
         if cls.match(line):
             stmt = cls(self, newitem)
